@@ -52,7 +52,8 @@ def m_val(w):
 
 def m_rec(rec):
     l = rec["lock"]
-    ls = "-" if not l else ",".join([hexn(l["start"]), l["primary"], l["kind"], l["val"] if l["kind"] == "put" else "-"])
+    ls = "-" if not l else ",".join([hexn(l["start"]), l["primary"], l["kind"], l["val"] if l["kind"] == "put" else "-",
+                                     "1" if l.get("async") else "0", hexn(l.get("min_commit", 0)), "+".join(l.get("secs") or []) or "."])
     ws = "/".join(",".join([hexn(w["start"]), hexn(w["commit"]), m_val(w)]) for w in data_writes(rec)) or "-"
     return "|".join([rec["key"], ls, ws])
 
@@ -76,6 +77,21 @@ def committed_at(pre_by_key, p, t):
     r = pre_by_key.get(p)
     if not r:
         return None
+    l = r["lock"]
+    if l and l["start"] == t and l.get("async") and l["kind"] != "pess":
+        # async-commit primary still locked: the secondaries decide
+        mc = l.get("min_commit", 0)
+        for k in l.get("secs") or []:
+            rk = pre_by_key.get(k)
+            lk = rk and rk["lock"]
+            if lk and lk["start"] == t and lk["kind"] != "pess":
+                mc = max(mc, lk.get("min_commit", 0))
+            else:
+                for w in (data_writes(rk) if rk else []):
+                    if w["start"] == t:
+                        return w["commit"]
+                return None
+        return mc
     for w in data_writes(r):
         if w["start"] == t:
             return w["commit"]
@@ -212,14 +228,28 @@ def gc_oracles_from_events(events):
 
 
 def do_gc(cx, res):
-    c = res["case"]; qid = "g%d" % c["id"]
+    c = res["case"]
+    uni = c.get("backend") == "unistore"
+    qid = ("u%d" if uni else "g%d") % c["id"]
     sp, s, e = c["sp"], c.get("s", "-"), c.get("e", "-")
+    if c.get("expect") == "primary_mismatch":
+        # stale pessimistic primary pointer onto a secondary prewrite lock of the same transaction: TiKV / unistore answer
+        # PrimaryMismatch, getTxnStatus returns it, BatchResolveLocks fails: the model's collect_v = None (C14_primary_check)
+        cx.stats["uni:primary-mismatch"] += 1
+        cx.oracle("primary mismatch" in res["err"], res, "C14_primary_check(PrimaryMismatch fails the pass, as modelled)", "err = %r" % res["err"])
+        cx.oracle([canon_rec_str(m_rec(r)) for r in res["pre"] if r["lock"] and r["lock"]["kind"] != "pess"] ==
+                  [canon_rec_str(m_rec(r)) for r in res["post"] if r["lock"] and r["lock"]["kind"] != "pess"], res,
+                  "C14_primary_check(no prewrite lock is touched by the failed pass)", "prewrite locks changed")
+        cx.ask(qid + "p", "\t".join(["pok", qid + "p", m_store(res["pre"])]),
+               lambda f: None if f[0] == "0" else cx.mismatch(res, "primaries_okb should be false on the PrimaryMismatch population", res["pre"], f))
+        cx.sigs.add(sig(c))
+        return
     if c.get("barrier"):
         sp = min(sp, c["barrier"])     # a GC barrier blocks the txn safe point: GC must run with the lower value
         cx.stats["gc-feature:blocked-safe-point"] += 1
     pre, post = res["pre"], res["post"]
     pre_by_key = {r["key"]: r for r in pre}
-    cx.stats["gc:" + c.get("class", "")] += 1
+    cx.stats[("uni:" if uni else "gc:") + c.get("class", "")] += 1
     cx.oracle(res["err"] == "", res, "C14_no_old_lock(pass succeeds)", "GC lock resolution failed: " + res["err"])
     if res["err"] != "":
         return
@@ -281,7 +311,14 @@ def do_gc(cx, res):
         feats.append("commit-secondary")
     if any(r["lock"] and r["lock"]["start"] > sp for r in pre):
         feats.append("lock-above-sp")
-    for f in feats:
+    for r in pre:
+        l = r["lock"]
+        if l and l.get("async") and l.get("secs") and l["start"] <= sp:
+            oc = committed_at(pre_by_key, r["key"], l["start"])
+            feats.append("async-primary-locked:" + ("commit" if oc else "rollback"))
+    if uni:
+        cx.ask(qid + "p", "\t".join(["pok", qid + "p", m_store(pre)]), lambda f: cx.stats.update({"uni:primaries-ok" if f[0] == "1" else "uni:primaries-not-ok": 1}))
+    for f in set(feats):
         cx.stats["gc-feature:" + f] += 1
     if n_old > 0:
         cx.sigs.add(sig(c))
@@ -303,6 +340,70 @@ def do_gc(cx, res):
         if bad:
             cx.mismatch(res, "store after the pass vs RangeTask.resolve_all", bad[:4], None)
     cx.ask(qid + "f", "\t".join(["final", qid + "f", hexn(sp), store]), cb_final)
+    # every TxnInfo of every ResolveLock request (any number of workers: a multiset, not a sequence) carries the
+    # transaction's outcome per the model, and every old prewrite lock of the range is covered by such a request
+    resolves = [ev for ev in evs if ev["t"] == "resolve"]
+    if c.get("mode", "custom") == "custom":
+        def cb_out(f):
+            outc = {}
+            for item in (f[0].split(",") if f and f[0] else []):
+                kt, oc = item.split("=")
+                k, t = kt.split("@")
+                outc[(k, int(t, 16))] = 0 if oc == "N" else int(oc, 16)
+            by_t = {}
+            for (k, t), oc in outc.items():
+                r0 = pre_by_key[k]
+                if r0["lock"]["kind"] != "pess":
+                    by_t.setdefault(t, set()).add(oc)
+            bad = []
+            for ev in resolves:
+                for t, cts in ev.get("infos") or []:
+                    if t in by_t and by_t[t] != {cts}:
+                        bad.append({"resolve": ev, "txn": t, "sent": cts, "model_outcome": sorted(by_t[t])})
+            for (k, t), oc in outc.items():
+                r0 = pre_by_key[k]
+                if t <= sp and in_range(k, s, e) and r0["lock"]["kind"] != "pess":
+                    by_check = any(ev["t"] == "check" and ev.get("s") == k and ev.get("ts") == t for ev in evs)   # a primary rolled back by CheckTxnStatus
+                    if not by_check and not any(in_range(k, ev["rs"], ev["re"]) and any(ti[0] == t for ti in ev.get("infos") or []) for ev in resolves):
+                        bad.append({"uncovered_lock": k, "txn": t})
+            if bad:
+                cx.mismatch(res, "ResolveLock requests (multiset) vs RangeTask.committed_at", bad[:4], None)
+            else:
+                cx.stats["gc:resolve-requests-validated"] += 1
+        cx.ask(qid + "o", "\t".join(["outcomes", qid + "o", store]), cb_out)
+    # async commit: the per-region CheckSecondaryLocks answers in delivery order vs Model.check_all_secondaries
+    if c.get("conc", 1) == 1:
+        i, n_groups = 0, 0
+        while i < len(evs):
+            ev = evs[i]
+            if ev["t"] == "check" and ev.get("async"):
+                t, mc0 = ev["ts"], (ev.get("mincs") or [0])[0]
+                answers, j = [], i + 1
+                while j < len(evs) and evs[j]["t"] == "checksec" and evs[j]["ts"] == t:
+                    a = evs[j]
+                    answers.append("M" + hexn(a.get("commit", 0)) if a.get("err") == "missing" else "L" + "+".join(hexn(x) for x in a.get("mincs") or []))
+                    j += 1
+                nxt = next((x for x in evs[j:] if x["t"] in ("resolve", "resolveerr")), None)
+                sent = None
+                if nxt:
+                    for ti in nxt.get("infos") or []:
+                        if ti[0] == t:
+                            sent = ti[1]
+                if sent is not None:
+                    n_groups += 1
+                    aq = "%sa%d" % (qid, i)
+
+                    def cb_ak(f, sent=sent, answers=answers, t=t):
+                        exp = int(f[1], 16) if f[0] == "ok" else None
+                        if exp != sent:
+                            cx.mismatch(res, "checkAllSecondaries decision vs RangeTask.check_all_secondaries (answers in delivery order)",
+                                        {"txn": t, "answers": answers, "commit_ts_sent": sent}, f)
+                    cx.ask(aq, "\t".join(["addkeys", aq, hexn(mc0), ";".join(answers) or "L"]), cb_ak)
+                i = j
+            else:
+                i += 1
+        if n_groups:
+            cx.stats["gc-feature:async-decisions-validated"] += n_groups
     cx.ask(qid + "w", "\t".join(["wf", qid + "w", hexn(sp), store]), lambda f: cx.stats.update({"gc:wf-hypotheses-hold" if f[0] == "1" else "gc:wf-hypotheses-fail": 1}))
     # model: iteration trace (sequential runs only)
     if c.get("mode", "custom") == "custom" and c.get("conc", 1) == 1:
@@ -432,9 +533,12 @@ def main(tier, replay):
     env = vlib.goenv(); env["VERIF_SEED"] = str(vlib.SEED); env["VERIF_TIER"] = tier
     okm, modelrun = vlib.build_model("RangeTask")
     okg, exe = vlib.go_build("gc", roots=("ov_gc",))
+    oku, exeu = vlib.go_build("gcuni", pkg="./zz_verif_gc", module_dir=os.path.join(vlib.REPO, "integration_tests"), roots=("ov_gc",), timeout=1500)
     cx = Ctx()
     mock = {}
     results = []
+    if not oku:
+        v.violation({"kind": "harness-build", "correspondence": "gcuni (unistore) driver build against the current tree", "error": exeu}, has_input=False)
     if okg and okm:
         if replay:
             rc_obj = json.load(open(replay))
@@ -445,9 +549,13 @@ def main(tier, replay):
             if case:
                 tf.write(json.dumps(case) + "\n")
             tf.close()
-            rc, out = vlib.sh([exe, "replay", tf.name], env=env, timeout=600)
+            use = exeu if (case and case.get("backend") == "unistore" and oku) else exe
+            rc, out = vlib.sh([use, "replay", tf.name], env=env, timeout=600)
         else:
             rc, out = vlib.sh([exe], env=env, timeout=1500)
+            if rc == 0 and oku:
+                rc, out2 = vlib.sh([exeu], env=env, timeout=1500)
+                out = out + "\n" + out2
         if rc != 0:
             v.violation({"kind": "harness", "correspondence": "gc driver run", "error": out[-1500:]}, has_input=False)
         else:
